@@ -303,7 +303,7 @@ def _slice_fill(cx, it, f0, X, rowv):
                 if not (isinstance(o.value, S) and o.value == S((("ref", nvar),))):
                     raise AnalysisError("R18d", f"{REL}::{H.name}", f"the helper returns {o.value!r} inside the loop, not the position")
                 stops.add(True)
-            elif o.how == "fall":
+            elif o.how in ("fall", "continue"):
                 stops.add(False)
             else:
                 raise AnalysisError("R18d", f"{REL}::{H.name}", f"loop body ends with {o.how} for a cell holding {label}")
